@@ -53,6 +53,8 @@ type GenProfile struct {
 	Big         bool // allow multi-block values
 	OptProfile  OptProfile
 	ReopenSame  bool // reopen keeps the options
+	BatchGets   int  // percentage of Batch.Get among batch ops (default 20)
+	PostCommit  bool // generate calls on the committed batch and empty batches
 }
 
 // ValueLen draws a value length from the size classes, steering some draws at
@@ -162,7 +164,14 @@ func GenOp(t *rapid.T, r *Runner, pool *KeyPool, p *GenProfile) Op {
 // GenBatch draws a batch with repeats on one key and keys also written plainly.
 func GenBatch(t *rapid.T, r *Runner, pool *KeyPool, p *GenProfile) Op {
 	n := 1 + U(t, max(1, p.MaxBatchOps), "nbatch")
+	if p.PostCommit && Pct(t, 6, "emptybatch") {
+		n = 0
+	}
 	op := Op{K: "batch", Sync: U(t, 4, "bsync") == 0}
+	gets := p.BatchGets
+	if gets == 0 {
+		gets = 20
+	}
 	var used [][]byte
 	for i := 0; i < n; i++ {
 		var key []byte
@@ -172,14 +181,23 @@ func GenBatch(t *rapid.T, r *Runner, pool *KeyPool, p *GenProfile) Op {
 			key = pool.Draw(t, "bkey")
 		}
 		used = append(used, key)
-		x := U(t, 10, "bkind")
+		x := U(t, 100, "bkind")
 		switch {
-		case x < 6:
+		case x < gets:
+			op.Ops = append(op.Ops, Op{K: "bget", Key: key})
+		case x < gets+(100-gets)*3/4:
 			op.Ops = append(op.Ops, Op{K: "bput", Key: key, VLen: ValueLen(t, r, len(key), 1<<60, p.Big), VSeed: r.NextSeed()})
-		case x < 8:
+		case x < 99:
 			op.Ops = append(op.Ops, Op{K: "bdel", Key: key})
 		default:
-			op.Ops = append(op.Ops, Op{K: "bget", Key: key})
+			op.Ops = append(op.Ops, Op{K: "bempty", Which: Pick(t, []string{"put", "del", "get"}, "bwhich")})
+		}
+	}
+	if p.PostCommit {
+		for _, c := range []string{"put", "del", "get"} {
+			if Pct(t, 40, "post") {
+				op.Post = append(op.Post, c)
+			}
 		}
 	}
 	return op
